@@ -23,7 +23,7 @@ def stubs(log=None):
     }
 
 
-def make_config(run, z0, levels, src_loc):
+def make_config(run, z0, levels, src_loc, ref=False):
     """Symbolic configuration; discrete choices: z0 given?, level selection, src_loc given?"""
     z0sym = sym.fresh_real("z0")
 
@@ -59,7 +59,7 @@ def make_config(run, z0, levels, src_loc):
     dom = values.Rec("domain", nx=sym.fresh_int("cfg_nx"), ny=sym.fresh_int("cfg_ny"), xmax=sym.fresh_real("xmax"),
                      ymax=sym.fresh_real("ymax"), nz=nz, modes=(sym.fresh_int("m0"), sym.fresh_int("m1")),
                      halo=sym.fresh_real("cfg_halo"), output_levels=out_levels, full_output=full,
-                     ref_lat=None, ref_lon=None)
+                     ref_lat=sym.fresh_real("ref_lat") if ref else None, ref_lon=sym.fresh_real("ref_lon") if ref else None)
     sol = values.Rec("solver", closure=SStr.fresh("closure"), precision=SStr.fresh("precision"),
                      footprint=sym.fresh_bool("footprint"), analytic=sym.fresh_bool("analytic"),
                      surface_flux_shape=SStr.fresh("flux_shape"),
@@ -68,6 +68,16 @@ def make_config(run, z0, levels, src_loc):
     config = values.Rec("config", domain=dom, solver=sol, met=met, parallel=par, towers=None)
     tower = values.Rec("tower", name=SStr.fresh("tower_name"), x=sym.fresh_real("tower_x"), y=sym.fresh_real("tower_y"),
                        z_m=sym.fresh_real("z_m"), lat=sym.fresh_real("lat"), lon=sym.fresh_real("lon"))
+
+    # TowerConfig.compute_local_xy under its contract (C17): it REPLACES the tower's x, y by the forward map of its lat/lon.
+    # A tower handed to run_bldfm_single carries the coordinates the caller means (filled at configuration time, or set by
+    # hand): the single run reads them and must not move the tower.
+    def compute_local_xy(ref_lat, ref_lon):
+        R = z3.RealSort()
+        fx, fy = z3.Function("latlon_to_x", R, R, R, R, R), z3.Function("latlon_to_y", R, R, R, R, R)
+        a = (tower.lat.zr(), tower.lon.zr(), sym.num(ref_lat).zr(), sym.num(ref_lon).zr())
+        tower.x, tower.y = Num(fx(*a), True), Num(fy(*a), True)
+    tower.compute_local_xy = compute_local_xy
     return config, tower
 
 
@@ -112,12 +122,16 @@ def generate_single(ctx):
     ns = namespace(ctx)
     f = harness.define(ctx, ns, MOD, "run_bldfm_single")
     st = stubs()
-    for z0, levels, flux, src_loc in itertools.product(("given", "absent", "none-key"), ("list", "empty", "full", "default"),
-                                                       ("given", "generated"), (True, False)):
-        name = "z0=%s|levels=%s|flux=%s|src_loc=%s" % (z0, levels, flux, src_loc)
+    combos = [c + (False,) for c in itertools.product(("given", "absent", "none-key"), ("list", "empty", "full", "default"),
+                                                      ("given", "generated"), (True, False))]
+    # ... and with a reference origin configured (the tower then carries lat/lon AND local coordinates; the run uses the latter)
+    combos += [("given", "list", "given", True, True), ("absent", "default", "generated", False, True), ("none-key", "full", "generated", True, True)]
+    for z0, levels, flux, src_loc, ref in combos:
+        name = "z0=%s|levels=%s|flux=%s|src_loc=%s" % (z0, levels, flux, src_loc) + ("|ref-origin" if ref else "")
 
-        def thunk(run, z0=z0, levels=levels, flux=flux, src_loc=src_loc, name=name):
-            config, tower = make_config(run, z0, levels, src_loc)
+        def thunk(run, z0=z0, levels=levels, flux=flux, src_loc=src_loc, name=name, ref=ref):
+            config, tower = make_config(run, z0, levels, src_loc, ref)
+            tower_xy0 = (tower.x, tower.y)
             i = sym.fresh_int("met_index")
             run.assume((i >= 0) & (i < config.met.n_timesteps))
             fl = Op("input.surface_flux", {}) if flux == "given" else None
@@ -127,7 +141,10 @@ def generate_single(ctx):
             snapshot = {k: dict(vars(getattr(config, k))) for k in ("domain", "solver")}
             out = harness.call(run, f, config, tower, met_index=i, surface_flux=fl, cache=cache)
             res = out.value
+            moved = not (tower.x is tower_xy0[0] and tower.y is tower_xy0[1])
+            tower.x, tower.y = tower_xy0          # the specification speaks of the tower as it was handed in
             want = spec_single(st, config, tower, i, fl, cache, z0, levels)
+            run.oblige("frame.tower-not-moved", SBool(not moved), kind="frame")
             run.oblige("result-keys", SBool(isinstance(res, dict) and set(res) == set(want)), kind="post")
             if not isinstance(res, dict):
                 return
